@@ -785,3 +785,85 @@ example : settingsOf Gen.hashNames Gen.newIpfsAdder ⟨"trickle", "size-64", fal
     settingsOf Gen.hashNames Gen.newIpfsAdder ⟨"", "", true, false, false, 1, "nohash"⟩ = .refused := by decide
 
 end CV.C13.Par
+
+/-! ## Round 8 final — shard.go interpreted: `AddLink` / `Size` / `Limit` / `Flush` as the regenerated operation lists say -/
+namespace CV.C13.Flow
+open CV CV.C13
+
+theorem numbered_append (l : List Nat) (i x : Nat) :
+    numbered i (l ++ [x]) = numbered i l ++ [(i + l.length, x)] := by
+  induction l generalizing i with
+  | nil => simp [numbered]
+  | cons h t ih => simp [numbered, ih]; omega
+
+theorem numbered_any_ge (l : List Nat) (i j : Nat) (h : i + l.length ≤ j) :
+    (numbered i l).any (fun x => x.1 == j) = false := by
+  induction l generalizing i with
+  | nil => simp [numbered]
+  | cons a t ih =>
+    simp only [numbered, List.any_cons, List.length_cons] at h ⊢
+    rw [ih (i + 1) (by omega)]
+    have : (i == j) = false := by simp; omega
+    simp [this]
+
+theorem numbered_length (l : List Nat) (i : Nat) : (numbered i l).length = l.length := by
+  induction l generalizing i with
+  | nil => rfl
+  | cons a t ih => simp [numbered, ih]
+
+theorem numbered_vals (l : List Nat) (i : Nat) : (numbered i l).map (·.2) = l := by
+  induction l generalizing i with
+  | nil => rfl
+  | cons a t ih => simp [numbered, ih]
+
+/-- one interpreted `AddLink` is the hand-written step `blocks := blocks ++ [b]` (link numbered by position, size added) -/
+theorem addLinkF_code (lim : Nat) (k : Cur) (b : Blk) :
+    addLinkF Gen.shardAddLink (objOf lim k) b = some (objOf lim { k with blocks := k.blocks ++ [b] }) := by
+  rw [gen_shard_flow.1]
+  have h := numbered_any_ge (k.blocks.map (·.id)) 0 (k.blocks.map (·.id)).length (by omega)
+  simp only [List.length_map] at h
+  simp [addLinkF, shardAddLinkCode, List.foldl, alStep, objOf, mapSet, numbered_length, numbered_append, h, Cur.size]
+
+/-- **shard_flow_refines**: for every link sequence, the program read from shard.go — `AddLink` once per block on a
+    fresh shard — ends in exactly the object the hand-written bookkeeping (`Cur` with these blocks) stands for, and the
+    interpreted `Size()` / `Limit()` / fit test on it are `Cur.size` / the configured limit / the model's `fits`. -/
+theorem shard_flow_refines (lim : Nat) (k : Cur) (bs : List Blk) :
+    addLinksF Gen.shardAddLink (objOf lim k) bs = some (objOf lim { k with blocks := k.blocks ++ bs }) ∧
+    sizeF Gen.shardSize (objOf lim { k with blocks := k.blocks ++ bs }) = some (Cur.size { k with blocks := k.blocks ++ bs }) ∧
+    limitF Gen.shardLimit (objOf lim { k with blocks := k.blocks ++ bs }) = some lim ∧
+    ∀ sz, fitsF Gen.shardSize Gen.shardLimit (objOf lim { k with blocks := k.blocks ++ bs }) sz =
+      some (fits (Cur.size { k with blocks := k.blocks ++ bs }) sz lim) := by
+  refine ⟨?_, ?_, ?_, ?_⟩
+  · induction bs generalizing k with
+    | nil => simp [addLinksF]
+    | cons b t ih =>
+      simp only [addLinksF, addLinkF_code]
+      have := ih { k with blocks := k.blocks ++ [b] }
+      simpa [List.append_assoc] using this
+  · simp [gen_shard_flow.2.2.1, sizeF, objOf]
+  · simp [gen_shard_flow.2.2.2, limitF, sizeF, objOf]
+  · intro sz; simp [gen_shard_flow.2.2.1, gen_shard_flow.2.2.2, fitsF, limitF, sizeF, objOf, fits]
+
+/-- from a fresh shard (`newShard`: no links, size 0) -/
+theorem shard_flow_refines_fresh (lim : Nat) (a d : List Nat) (bs : List Blk) :
+    addLinksF Gen.shardAddLink ⟨[], 0, lim⟩ bs = some (objOf lim ⟨a, d, bs⟩) := by
+  have := (shard_flow_refines lim ⟨a, d, []⟩ bs).1
+  simpa [objOf, numbered, Cur.size] using this
+
+example : addLinksF Gen.shardAddLink ⟨[], 0, 100⟩ [⟨7, 10⟩, ⟨8, 20⟩, ⟨7, 5⟩] = some ⟨[(0, 7), (1, 8), (2, 7)], 35, 100⟩ := by decide
+
+/-- refutation (size not accumulated, `sh.currentSize += s` dropped): the interpreted `Size()` stays 0, the fit test
+    accepts a block the limit excludes, and the object is no longer the one the bookkeeping stands for -/
+theorem noSizeAccum_breaks :
+    ¬ (∀ (lim : Nat) (k : Cur) (b : Blk), addLinkF noSizeAccum (objOf lim k) b = some (objOf lim { k with blocks := k.blocks ++ [b] })) ∧
+    (addLinksF noSizeAccum ⟨[], 0, 10⟩ [⟨1, 8⟩]).bind (fun o => fitsF Gen.shardSize Gen.shardLimit o 8) = some true ∧
+    fits (Cur.size ⟨[], [], [⟨1, 8⟩]⟩) 8 10 = false := by
+  refine ⟨fun h => ?_, by decide, by decide⟩
+  have := h 10 ⟨[], [], []⟩ ⟨1, 8⟩
+  revert this; decide
+
+/-- refutation (limit compared with `<=`): with the non-strict operator a block that makes the shard exactly full is
+    accepted, which the strict test read from the source (`Gen.fitStrict`) refuses -/
+theorem fit_le_differs : fits 4 6 10 = false ∧ decide (4 + 6 ≤ 10) = true := by decide
+
+end CV.C13.Flow
